@@ -486,6 +486,7 @@ def run(res):
         if mi < 3:
             res.sample({"argv": inp["argv"], "transferred": sorted(set(impl_dst) - set(m["dst"]))[:6], "error": err})
     same_place_leg(res, top, trees, counter)
+    linked_view_leg(res, top, trees, counter)
     reader_leg(res, top)
     res.extra["traces_validated_against_impl"] = res.evaluations
     res.assumptions += [
@@ -532,6 +533,49 @@ def same_place_leg(res, top, trees, counter):
                     res.violation("transfer-raises-" + str(err), "drf %s of a directory onto itself raised" % op,
                                   {"argv": [op, "<src>", "<src> (%s)" % how], "tree": ct, "same_place": how}, "no error", err)
                 shutil.rmtree(work, ignore_errors=True)
+
+
+def linked_view_leg(res, top, trees, counter):
+    """the source is a VIEW of an archive: a tree of the library's layout whose files are symbolic links (relative
+    ones, as `ln -sr` and rsync make them) to the archive's files.  `drf cp` of the view to a directory at another depth
+    gives files with the content the listing's files have -- readable ones, not links that dangle from the new place"""
+    from digital_rf import drf_command
+    picks = [t for t in trees if store_of(assign_contents(t[1], [0]))][:4]
+    for ti, (tname, tree) in enumerate(picks):
+        ct = assign_contents(tree, counter)
+        work = os.path.join(top, "view%d" % ti)
+        arch, view, dest = os.path.join(work, "archive"), os.path.join(work, "views", "today"), os.path.join(work, "out", "a", "b", "dest")
+        write_ctree(arch, ct)
+        for r, _ds, fs in os.walk(arch):
+            rel = os.path.relpath(r, arch)
+            os.makedirs(os.path.join(view, rel), exist_ok=True)
+            for f in fs:
+                os.symlink(os.path.relpath(os.path.join(r, f), os.path.join(view, rel)), os.path.join(view, rel, f))
+        before = {p: v[0] for p, v in snapshot(view)[0].items()}
+        err = None
+        try:
+            drf_command.main(["cp", view, dest])
+        except SystemExit as e:
+            err = "SystemExit(%s)" % e.code
+        except Exception as e:  # noqa
+            err = type(e).__name__
+        got = {p: v[0] for p, v in snapshot(dest)[0].items()}
+        listed = sorted(os.path.relpath(x, view) for x in digital_rf_list(view))
+        res.case(("linked-view", tname), nontrivial=bool(listed))
+        res.count("source-files-are-relative-symlinks")
+        want = {p: before[p] for p in listed}
+        if err is not None or got != want:
+            res.violation("copy-of-linked-view-differs", "drf cp of a tree whose files are relative symbolic links does not give the listed "
+                          "files with their content", {"argv": ["cp", "<view>", "<dest>"], "tree": ct, "linked_view": True},
+                          want, err or got)
+            shutil.rmtree(work, ignore_errors=True)
+            return
+        shutil.rmtree(work, ignore_errors=True)
+
+
+def digital_rf_list(path):
+    import digital_rf
+    return digital_rf.lsdrf(path)
 
 
 def reader_leg(res, top):
